@@ -152,7 +152,7 @@ func cacheGet(query, tier string) *SolverResult {
 }
 
 func cachePut(query, tier string, r *SolverResult) {
-	if r.Verdict == "unknown" || os.Getenv("GOVC_NOCACHE") != "" {
+	if (r.Verdict == "unknown" && !strings.HasSuffix(query, ";cover\n")) || os.Getenv("GOVC_NOCACHE") != "" {
 		return
 	}
 	p := cachePath(query, tier)
@@ -276,6 +276,12 @@ func cmdCheck(args []string) int {
 			claimed++
 			failures = append(failures, &Failure{O: o, Kind: "sat"})
 		default:
+			if matchesKnown(known, prop, o.ID) != nil {
+				// a recorded finding: no need to burn the retry budget on it
+				claimed++
+				failures = append(failures, &Failure{O: o, Kind: "undecided"})
+				continue
+			}
 			// retry harder before saying anything
 			retryT := 25
 			if *tier == "thorough" {
